@@ -45,3 +45,183 @@ Section EvSound.
       eexists; split; [reflexivity|]. rewrite Qred_correct, Qs. reflexivity.
   Qed.
 End EvSound.
+
+(* ------------------------------------------------------------------ the formula K evaluates for the stored-action scenario
+   IS the definition, for every space, size, batch, mask and squash setting *)
+Lemma var_t2_wf name B D : wf_rows B D (var_t2 name B D).
+Proof.
+  unfold var_t2. split; [rewrite map_length, seq_length; reflexivity|].
+  apply Forall_forall. intros r Hr. apply in_map_iff in Hr as [b [<- _]]. rewrite map_length, seq_length. reflexivity.
+Qed.
+
+Lemma var_action_wf name sp B : wf_action sp B (var_action name sp B).
+Proof.
+  destruct sp; cbn [var_action wf_action]; try apply var_t2_wf.
+  unfold var_t1. rewrite map_length, seq_length. reflexivity.
+Qed.
+
+Lemma var_draws_wf name sp B : wf_draws sp B (var_draws name sp B).
+Proof.
+  destruct sp as [n|nv|n|d]; cbn [var_draws wf_draws wf_action ncomp]; try apply var_t2_wf.
+  - unfold var_t1. rewrite map_length, seq_length. reflexivity.
+  - split; [rewrite map_length, seq_length; reflexivity|].
+    apply Forall_forall. intros c Hc. apply in_map_iff in Hc as [j [<- _]]. rewrite map_length, seq_length. reflexivity.
+Qed.
+
+Lemma opt_mask_ok masked name sp B : (masked = true -> is_box sp = false) -> mask_ok sp B (opt_mask masked name sp B).
+Proof. intro H. destruct masked; cbn; [split; [auto|apply var_t2_wf]|exact I]. Qed.
+
+Lemma var_action_misses s name d B : 0 < B -> 0 < d -> tens_eqb (tmap Tanh s) (var_action name (Box d) B) = false.
+Proof.
+  intros HB Hd. cbn [var_action ncomp]. unfold var_t2.
+  destruct B as [|B]; [lia|]. destruct d as [|d]; [lia|].
+  cbn [seq map]. destruct s as [v|m|]; cbn [tmap tens_eqb]; try reflexivity.
+  destruct m as [|r m]; cbn [map list_eqb]; [reflexivity|].
+  destruct r as [|x r]; cbn [map list_eqb expr_eqb]; reflexivity.
+Qed.
+
+Theorem scenario_stored_formula_lemma sp squash masked B :
+  space_ok sp -> 0 < B -> 0 < ncomp sp -> (masked = true -> is_box sp = false) ->
+  run_scenario ScStored sp squash masked B false
+  = named "lp2" (spec_logprob sp (squash && is_box sp)
+                              (eff_logits (var_t2 "logit2" B (flatdim sp)) (opt_mask masked "mask2" sp B))
+                              (ed_log_std (ed_init sp squash)) (var_action "action" sp B)).
+Proof.
+  intros Hok HB Hc Hm. unfold run_scenario.
+  set (ac := actor_init sp squash).
+  destruct (actor_forward ac (var_t2 "logit" B (flatdim sp)) (opt_mask masked "mask" sp B) (var_draws "sampled" sp B))
+    as [[[[ac1 a1] lp1] e1]|] eqn:F1.
+  2:{ unfold actor_forward in F1. rewrite (ed_forward_eq _ _ _ _ B) in F1; try discriminate;
+      cbn [ac actor_init ac_head ed_init ed_space]; [assumption|apply var_t2_wf|apply opt_mask_ok; assumption]. }
+  apply actor_forward_head in F1 as [ed1 [a0 [F1 [H1 _]]]].
+  pose proof (ed_forward_space _ _ _ _ _ _ _ _ F1) as [Hsp1 [Hsq1 Hls1]].
+  cbn [ac actor_init ac_head ed_init ed_space ed_squash ed_log_std] in Hsp1, Hsq1, Hls1.
+  destruct (actor_forward ac1 (var_t2 "logit2" B (flatdim sp)) (opt_mask masked "mask2" sp B) (var_draws "sampled2" sp B))
+    as [[[[ac2 a2] lp2] e2]|] eqn:F2.
+  2:{ unfold actor_forward in F2. rewrite H1 in F2. rewrite (ed_forward_eq _ _ _ _ B) in F2; try discriminate;
+      rewrite Hsp1; [assumption|apply var_t2_wf|apply opt_mask_ok; assumption]. }
+  apply actor_forward_head in F2 as [ed2 [b0 [F2 [H2 _]]]]. rewrite H1 in F2.
+  unfold action_log_prob. rewrite H2. f_equal.
+  rewrite (logprob_is_spec_stored_lemma ed1 (var_t2 "logit2" B (flatdim sp)) (opt_mask masked "mask2" sp B)
+             (var_draws "sampled2" sp B) ed2 b0 lp2 e2 (var_action "action" sp B) B); try assumption.
+  - rewrite Hsp1, Hsq1, Hls1. reflexivity.
+  - unfold ed_ok. rewrite Hsq1, Hsp1. intro H. apply andb_true_iff in H. tauto.
+  - rewrite Hsp1. assumption.
+  - rewrite Hsp1. apply var_t2_wf.
+  - rewrite Hsp1. apply opt_mask_ok. assumption.
+  - rewrite Hsp1. apply var_action_wf.
+  - rewrite Hsq1. destruct (squash && is_box sp) eqn:E; [right|left; reflexivity].
+    apply andb_true_iff in E as [_ Eb]. destruct sp as [n|nv|n|d]; try discriminate.
+    intros d1 _. unfold cache_hit. destruct (td_sampled d1); [|reflexivity].
+    rewrite (var_action_misses t "action" d B) by assumption. apply andb_false_r.
+Qed.
+
+(* the same for PPO: get_action on batch 1 (with mask), then evaluate_actions(batch 2, stored actions) *)
+Theorem scenario_ppo_eval_formula_lemma sp squash masked B :
+  space_ok sp -> 0 < B -> 0 < ncomp sp -> (masked = true -> is_box sp = false) ->
+  let S := spec_logprob sp (squash && is_box sp) (var_t2 "logit2" B (flatdim sp)) (ed_log_std (ed_init sp squash))
+                        (var_action "action" sp B) in
+  run_scenario ScPPOEval sp squash masked B false
+  = oapp (named "lp2" S)
+         (named "ent2" (ppo_entropy S (if squash && is_box sp then None
+                                       else Some (spec_entropy sp (var_t2 "logit2" B (flatdim sp)) (ed_log_std (ed_init sp squash)))))).
+Proof.
+  intros Hok HB Hc Hm S. unfold run_scenario.
+  set (ac := actor_init sp squash).
+  unfold ppo_get_action.
+  destruct (ed_forward (ac_head ac) (var_t2 "logit" B (flatdim sp)) (opt_mask masked "mask" sp B) (var_draws "sampled" sp B))
+    as [[[[ed1 a1] lp1] e1]|] eqn:F1.
+  2:{ rewrite (ed_forward_eq _ _ _ _ B) in F1
+        by (cbn [ac actor_init ac_head ed_init ed_space]; first [assumption|apply var_t2_wf|apply opt_mask_ok; assumption]).
+      cbv zeta in F1. discriminate. }
+  pose proof (ed_forward_space _ _ _ _ _ _ _ _ F1) as [Hsp1 [Hsq1 Hls1]].
+  cbn [ac actor_init ac_head ed_init ed_space ed_squash ed_log_std] in Hsp1, Hsq1, Hls1.
+  destruct (ppo_evaluate_actions {| ac_head := ed1; ac_squash := ac_squash ac |} (var_t2 "logit2" B (flatdim sp))
+              (var_draws "sampled2" sp B) (var_action "action" sp B)) as [[[ac2 lp2] e2]|] eqn:E.
+  2:{ unfold ppo_evaluate_actions in E. cbn [ac_head] in E.
+      rewrite (ed_forward_eq _ _ None _ B) in E by (rewrite Hsp1; first [assumption|apply var_t2_wf|exact I]).
+      cbv zeta in E. discriminate. }
+  assert (Hedok : ed_ok ed1).
+  { unfold ed_ok. rewrite Hsq1, Hsp1. intro H. apply andb_true_iff in H. tauto. }
+  pose proof E as E'. unfold ppo_evaluate_actions in E'. cbn [ac_head] in E'.
+  destruct (ed_forward ed1 (var_t2 "logit2" B (flatdim sp)) None (var_draws "sampled2" sp B)) as [[[[ed2 b0] lpx] entx]|] eqn:F2;
+    [|discriminate].
+  injection E' as <- Hlp He.
+  assert (Hent : entx = if squash && is_box sp then None
+                        else Some (spec_entropy sp (var_t2 "logit2" B (flatdim sp)) (ed_log_std (ed_init sp squash)))).
+  { rewrite (entropy_is_spec_lemma ed1 (var_t2 "logit2" B (flatdim sp)) None (var_draws "sampled2" sp B) ed2 b0 lpx entx B) ; try eassumption;
+      try (rewrite Hsp1; first [assumption|apply var_t2_wf|exact I]).
+    rewrite Hsq1, Hsp1, Hls1. reflexivity. }
+  assert (HS : lp2 = S).
+  { pose proof (ppo_evaluate_is_spec_lemma {| ac_head := ed1; ac_squash := ac_squash ac |} (var_t2 "logit2" B (flatdim sp))
+                  (var_draws "sampled2" sp B) (var_action "action" sp B) {| ac_head := ed2; ac_squash := squash |} lp2 e2 B) as L.
+    cbn [ac_head] in L. rewrite Hsp1, Hsq1, Hls1 in L. unfold S. apply L; try assumption.
+    - apply var_t2_wf.
+    - apply var_action_wf.
+    - destruct (squash && is_box sp) eqn:Eb; [right|left; reflexivity].
+      apply andb_true_iff in Eb as [_ Eb]. destruct sp as [n|nv|n|d]; try discriminate.
+      intros d1 _. unfold cache_hit. destruct (td_sampled d1); [|reflexivity].
+      rewrite (var_action_misses t "action" d B) by assumption. apply andb_false_r. }
+  rewrite <- He, Hent, <- Hlp. fold (action_log_prob {| ac_head := ed2; ac_squash := ac_squash ac |} (var_action "action" sp B)).
+  rewrite Hlp, HS. reflexivity.
+Qed.
+
+(* learn(): with the restored component axis the formula of the learn scenario is the one of evaluate_actions *)
+Theorem scenario_ppo_learn_formula_lemma sp squash masked B :
+  run_scenario ScPPOLearn sp squash masked B false = run_scenario ScPPOEval sp squash masked B false.
+Proof.
+  unfold run_scenario.
+  destruct (ppo_get_action (actor_init sp squash) (var_t2 "logit" B (flatdim sp)) (opt_mask masked "mask" sp B)
+              (var_draws "sampled" sp B)) as [[[[ac1 a1] lp1] e1]|] eqn:G; [|reflexivity].
+  unfold ppo_learn_evaluate.
+  assert (Hsp : ed_space (ac_head ac1) = sp).
+  { unfold ppo_get_action in G.
+    destruct (ed_forward (ac_head (actor_init sp squash)) (var_t2 "logit" B (flatdim sp)) (opt_mask masked "mask" sp B)
+                (var_draws "sampled" sp B)) as [[[[ed1 x1] x2] x3]|] eqn:F; [|discriminate].
+    injection G as <- _ _ _. cbn [ac_head]. apply (ed_forward_space _ _ _ _ _ _ _ _ F). }
+  rewrite Hsp, (learn_actions_id_lemma sp B) by apply var_action_wf. reflexivity.
+Qed.
+
+(* IPPO._learn_individual: actor(batch_states) then action_log_prob(minibatch actions) *)
+Theorem scenario_ippo_learn_formula_lemma sp squash masked B :
+  space_ok sp -> 0 < B -> 0 < ncomp sp -> (masked = true -> is_box sp = false) ->
+  run_scenario ScIPPOLearn sp squash masked B false
+  = oapp (named "lp2" (spec_logprob sp (squash && is_box sp) (var_t2 "logit2" B (flatdim sp)) (ed_log_std (ed_init sp squash))
+                                    (var_action "action" sp B)))
+         (if squash && is_box sp then Some [("ent2"%string, [])]
+          else named "ent2" (spec_entropy sp (var_t2 "logit2" B (flatdim sp)) (ed_log_std (ed_init sp squash)))).
+Proof.
+  intros Hok HB Hc Hm. unfold run_scenario.
+  set (ac := actor_init sp squash).
+  destruct (actor_forward ac (var_t2 "logit" B (flatdim sp)) (opt_mask masked "mask" sp B) (var_draws "sampled" sp B))
+    as [[[[ac1 a1] lp1] e1]|] eqn:F1.
+  2:{ unfold actor_forward in F1.
+      rewrite (ed_forward_eq _ _ _ _ B) in F1
+        by (cbn [ac actor_init ac_head ed_init ed_space]; first [assumption|apply var_t2_wf|apply opt_mask_ok; assumption]).
+      cbv zeta in F1. discriminate. }
+  apply actor_forward_head in F1 as [ed1 [a0 [F1 [H1 _]]]].
+  pose proof (ed_forward_space _ _ _ _ _ _ _ _ F1) as [Hsp1 [Hsq1 Hls1]].
+  cbn [ac actor_init ac_head ed_init ed_space ed_squash ed_log_std] in Hsp1, Hsq1, Hls1.
+  unfold ippo_learn_evaluate. rewrite H1, Hsp1.
+  rewrite (learn_actions_id_lemma sp B) by apply var_action_wf.
+  destruct (actor_forward ac1 (var_t2 "logit2" B (flatdim sp)) None (var_draws "sampled2" sp B))
+    as [[[[ac2 a2] lp2] e2]|] eqn:F2.
+  2:{ unfold actor_forward in F2. rewrite H1 in F2.
+      rewrite (ed_forward_eq _ _ None _ B) in F2 by (rewrite Hsp1; first [assumption|apply var_t2_wf|exact I]).
+      cbv zeta in F2. discriminate. }
+  apply actor_forward_head in F2 as [ed2 [b0 [F2 [H2 _]]]]. rewrite H1 in F2.
+  assert (Hedok : ed_ok ed1).
+  { unfold ed_ok. rewrite Hsq1, Hsp1. intro H. apply andb_true_iff in H. tauto. }
+  unfold action_log_prob. rewrite H2.
+  rewrite (logprob_is_spec_stored_lemma ed1 (var_t2 "logit2" B (flatdim sp)) None
+             (var_draws "sampled2" sp B) ed2 b0 lp2 e2 (var_action "action" sp B) B); try assumption;
+    try (rewrite Hsp1; first [assumption|apply var_t2_wf|apply var_action_wf|exact I]).
+  2:{ rewrite Hsq1. destruct (squash && is_box sp) eqn:E; [right|left; reflexivity].
+      apply andb_true_iff in E as [_ Eb]. destruct sp as [n|nv|n|d]; try discriminate.
+      intros d1 _. unfold cache_hit. destruct (td_sampled d1); [|reflexivity].
+      rewrite (var_action_misses t "action" d B) by assumption. apply andb_false_r. }
+  rewrite (entropy_is_spec_lemma ed1 (var_t2 "logit2" B (flatdim sp)) None (var_draws "sampled2" sp B) ed2 b0 lp2 e2 B);
+    try exact F2; try (rewrite Hsp1; first [assumption|apply var_t2_wf|exact I]).
+  cbn [eff_logits]. rewrite Hsp1, Hsq1, Hls1.
+  destruct (squash && is_box sp); reflexivity.
+Qed.
